@@ -5,6 +5,7 @@ mod report;
 mod c16;
 mod sim;
 mod hist;
+mod adl;
 mod c01;
 mod c05;
 mod c07;
